@@ -3883,6 +3883,25 @@ class CaseNode(Node):
                     ProgramData.imbue(trans, DTAG.NAME, "else action on case node")
                     ProgramData.imbue(trans, DTAG.PARENT, self)
 
+        # The actions of a clause without a body are placed on the transitions entering its finish states. That is only right if
+        # entering one of them means the clause is the one that is taken: check that before touching the decider.
+        for i in mergeable_ds:
+            if original_backreference[i] is not None or empty_backreference[i] is None or not self.case_match_actions[empty_backreference[i]]:
+                continue
+            if decider_dfa.starting_state in corresponding_finish_states[i]:
+                raise IllegalASTStateError("Unable to schedule the actions of a case clause without a body: its pattern matches the empty string", self, *self.case_match_actions[empty_backreference[i]])
+            finish_states_of_others = set().union(*(corresponding_finish_states[j] for j in mergeable_ds if j is not i))
+            visited = set()
+            to_visit = list(corresponding_finish_states[i])
+            while to_visit:
+                for trans in to_visit.pop().all_transitions():
+                    if trans.error_handling or trans.target is None or trans.target in visited:
+                        continue
+                    if trans.target in finish_states_of_others:
+                        raise IllegalASTStateError("Unable to schedule the actions of a case clause without a body: a longer input selects a different clause", self, *self.case_match_actions[empty_backreference[i]])
+                    visited.add(trans.target)
+                    to_visit.append(trans.target)
+
         # Go through and link up all the states
         for i in mergeable_ds:
             # If there was no state machine associated with the DFA
